@@ -3,6 +3,7 @@ package poll
 import (
 	"context"
 	"encoding/json"
+	"errors"
 	"fmt"
 	"log/slog"
 	"math/rand" // nosemgrep
@@ -296,6 +297,12 @@ func (w *PollWorker) Process(mesg *aio.Message) {
 	var data *Data
 	if err := json.Unmarshal(mesg.Data, &data); err != nil {
 		mesg.Done(false, err)
+		return
+	}
+
+	// the json value null unmarshals without error
+	if data == nil {
+		mesg.Done(false, errors.New("data must not be null"))
 		return
 	}
 
